@@ -22,6 +22,7 @@ fn pick_src(env: &Env, rng: &mut Rng) -> String {
         4 => mutate::byte_mutate(env.corpus.pick_program(rng), rng),
         5 => crate::workload::lib_text(rng),
         6 => rng.pick(PROBES).to_string(),
+        7 => rng.pick(INCLUDERS).to_string(),
         _ => env.corpus.pick_program(rng).to_string(),
     }
 }
@@ -37,6 +38,23 @@ pub fn run_case(env: &Env, ctx: &mut Ctx, idx: u64) {
     let _ = std::fs::write(&top, "`include \"inc.svh\"\nmodule m; wire logic; endmodule\n");
     let cyc = dir.join("cyc.sv");
     let _ = std::fs::write(&cyc, "`include \"cyc.sv\"\n");
+    // two further include directories that hold different files under the same names
+    let (da, db) = (dir.join("a"), dir.join("b"));
+    let _ = std::fs::create_dir_all(&da);
+    let _ = std::fs::create_dir_all(&db);
+    let _ = std::fs::write(da.join("inc.svh"), "`define W 8\n");
+    let _ = std::fs::write(db.join("inc.svh"), "`define W 16\n`define FROM_B\n");
+    let _ = std::fs::write(da.join("only_a.svh"), "`define ONLY_A\n");
+    let _ = std::fs::write(db.join("only_b.svh"), "wire only_b;\n");
+    let path_sets: Vec<Vec<std::path::PathBuf>> = vec![
+        vec![dir.clone()],
+        vec![da.clone()],
+        vec![db.clone()],
+        vec![da.clone(), db.clone()],
+        vec![db.clone(), da.clone()],
+        vec![],
+        vec![dir.clone(), db.clone()],
+    ];
 
     let k = rng.range(1, if ctx.tier == Tier::Quick { 8 } else { 12 });
     let mut rb = RawBuf::new();
@@ -47,7 +65,8 @@ pub fn run_case(env: &Env, ctx: &mut Ctx, idx: u64) {
             let p = if rng.chance(1, 2) { top.clone() } else { cyc.clone() };
             Call { entry: if rng.chance(1, 2) { Entry::PpFile } else { Entry::ParseSvFile }, src: String::new(), path: Some(p), include_paths: vec![dir.clone()] }
         } else {
-            Call { entry: *rng.pick(ENTRIES), src, path: None, include_paths: vec![dir.clone()] }
+            let ip = if rng.chance(1, 2) { vec![dir.clone()] } else { rng.pick(&path_sets).clone() };
+            Call { entry: *rng.pick(ENTRIES), src, path: None, include_paths: ip }
         }
     };
     for _ in 0..k {
@@ -58,8 +77,12 @@ pub fn run_case(env: &Env, ctx: &mut Ctx, idx: u64) {
     }
     // probe: a sensitive probe, a corpus program, or a repetition of an earlier call
     let probe = match rng.below(10) {
-        0..=3 => {
+        0..=2 => {
             let s = rng.pick(PROBES).to_string();
+            mk(&mut rng, s)
+        }
+        3 => {
+            let s = rng.pick(INCLUDERS).to_string();
             mk(&mut rng, s)
         }
         4 | 5 => hist[rng.below(hist.len())].clone(),
@@ -71,6 +94,9 @@ pub fn run_case(env: &Env, ctx: &mut Ctx, idx: u64) {
     let snap = hooks::snapshot();
     let dirty = snap.memo_entries > 0 || snap.directive_depth > 0 || !snap.version_stack.is_empty();
     ctx.count("histories", 1);
+    if hist.iter().any(|c| c.include_paths != probe.include_paths) {
+        ctx.count("probes_after_calls_with_other_include_paths", 1);
+    }
     ctx.count("history_calls", k as u64);
     if dirty {
         ctx.count("probes_on_dirty_state", 1);
